@@ -249,6 +249,8 @@ def _raises(cfg, inp):
         return 0
     except ValueError:
         return 1
+    except Exception:
+        return 2          # some other exception: neither of the two documented outcomes
 
 
 def _keys_cfgs(tier):
@@ -355,30 +357,33 @@ def _mh_cfgs(tier):
 
 
 ONE = lambda cfg: ([0],)  # noqa: E731   single row per configuration
+# outputs recorded when the helper under test raises (type-compatible with the expected values)
+RD = {"okind": "raised", "ikind": "raised", "okeys": [], "ikeys": [], "leaf": []}
+R = 999999
 
 FAMILIES = {
-    "transpose_layout": Family("transpose_layout", cfgs=_layout_cfgs, domain=ONE, direct=_tr_layout),
+    "transpose_layout": Family("transpose_layout", cfgs=_layout_cfgs, domain=ONE, direct=_tr_layout, on_raise=[RD, RD]),
     "transpose_layout_with_keys": Family("transpose_layout_with_keys", cfgs=_layout_cfgs, domain=ONE,
-                                         direct=_tr_layout_keys),
-    "transpose.const": Family("transpose.const", cfgs=_value_cfgs, domain=_value_domain, direct=_tr_const),
-    "transpose.view": Family("transpose.view", cfgs=_value_cfgs, domain=_value_domain, build=_tr_view_build),
+                                         direct=_tr_layout_keys, on_raise=[RD, [], []]),
+    "transpose.const": Family("transpose.const", cfgs=_value_cfgs, domain=_value_domain, direct=_tr_const, on_raise=[[], RD, []]),
+    "transpose.view": Family("transpose.view", cfgs=_value_cfgs, domain=_value_domain, build=_tr_view_build, on_raise=[[], RD, []]),
     "transpose_layout.raises": Family("transpose_layout.raises", cfgs=_tree_cfgs, domain=ONE, direct=_raises),
-    "layout_keys": Family("layout_keys", cfgs=_keys_cfgs, domain=ONE, direct=_layout_keys),
-    "signed_to_int": Family("signed_to_int", cfgs=_xlens, direct=_s2i,
+    "layout_keys": Family("layout_keys", cfgs=_keys_cfgs, domain=ONE, direct=_layout_keys, on_raise=["raised"]),
+    "signed_to_int": Family("signed_to_int", cfgs=_xlens, direct=_s2i, on_raise=[R, R],
                             domain=lambda cfg: ([x] for x in range(1 << cfg["xlen"]))),
-    "int_to_signed": Family("int_to_signed", cfgs=_xlens, direct=_i2s,
+    "int_to_signed": Family("int_to_signed", cfgs=_xlens, direct=_i2s, on_raise=[R, R],
                             domain=lambda cfg: ([x] for x in range(-(1 << (cfg["xlen"] - 1)), 1 << (cfg["xlen"] - 1)))),
-    "neg": Family("neg", cfgs=_xlens, direct=_neg, domain=lambda cfg: ([x] for x in range(1 << cfg["xlen"]))),
-    "bits_from_int": Family("bits_from_int", direct=_bfi,
+    "neg": Family("neg", cfgs=_xlens, direct=_neg, on_raise=R, domain=lambda cfg: ([x] for x in range(1 << cfg["xlen"]))),
+    "bits_from_int": Family("bits_from_int", direct=_bfi, on_raise=R,
                             cfgs=lambda tier: [{"lower": lo, "length": ln} for lo in range(0, 6) for ln in range(0, 6)],
                             domain=lambda cfg: ([x] for x in range(0, 130))),
-    "align_to_power_of_two": Family("align_to_power_of_two", direct=_align("align_to_power_of_two"),
+    "align_to_power_of_two": Family("align_to_power_of_two", direct=_align("align_to_power_of_two"), on_raise=R,
                                     cfgs=lambda tier: [{"power": p} for p in range(0, 9 if tier == "thorough" else 7)],
                                     domain=_align_domain),
-    "align_down_to_power_of_two": Family("align_down_to_power_of_two", direct=_align("align_down_to_power_of_two"),
+    "align_down_to_power_of_two": Family("align_down_to_power_of_two", direct=_align("align_down_to_power_of_two"), on_raise=R,
                                          cfgs=lambda tier: [{"power": p} for p in range(0, 9 if tier == "thorough" else 7)],
                                          domain=_align_domain),
-    "make_hashable": Family("make_hashable", cfgs=_mh_cfgs, domain=_mh_domain, direct=_mh),
+    "make_hashable": Family("make_hashable", cfgs=_mh_cfgs, domain=_mh_domain, direct=_mh, on_raise=[2, 2, 2, 2]),
 }
 
 LAWS = ["TypeOK", "SignedLaw", "NegLaw", "BitsLaw", "AlignLaw", "TransposeLaw", "EqLaw"]
